@@ -277,7 +277,7 @@ Ev(e, M) ==
          LET b == Ev(e.r, a.M) IN IF b.ctl # "norm" THEN b ELSE
          IF Val(b.M, b.d).t # "bool" THEN Err(b.M, "ee") ELSE CTemp(b.M, Val(b.M, b.d)))
     [] e.k = "not" -> (LET a == Ev(e.e, M) IN IF a.ctl # "norm" THEN a ELSE
-                       IF Val(a.M, a.d).t # "bool" THEN Err(a.M, "ee") ELSE CTemp(a.M, VBool(Val(a.M, a.d).i = 0)))
+                       IF Val(a.M, a.d).t # "bool" THEN Err(a.M, "ee") ELSE Temp(a.M, VBool(Val(a.M, a.d).i = 0)))     \* `!` returns a fresh non-const temporary
     [] e.k = "neg" -> (LET a == Ev(e.e, M) IN IF a.ctl # "norm" THEN a ELSE
                        IF Val(a.M, a.d).t # "int" THEN Err(a.M, "ee") ELSE CTemp(a.M, VInt(0 - Val(a.M, a.d).i)))
     [] e.k = "tern" -> (LET c == Ev(e.c, M) IN IF c.ctl # "norm" THEN c ELSE
